@@ -91,7 +91,7 @@ def run(prop, tier, seed, out):
             hist = scr.path("conc.ndjson")
             rp = scr.path("crep.json")
             t0 = time.time()
-            p, races = run_race(vh, ["conc-record", "-seed", str(seed), "-n", "40" if quick else "300", "-hist", hist, "-out", rp], scr, "c04")
+            p, races = run_race(vh, ["conc-record", "-seed", str(seed), "-n", "40" if quick else "160", "-hist", hist, "-out", rp], scr, "c04")
             if p.returncode != 0:
                 if "panic" in p.stderr or "fatal error" in p.stderr:
                     out.violation("the process died during concurrent Broker use: " + p.stderr[:400], {"stderr": p.stderr[-4000:]})
@@ -108,13 +108,12 @@ def run(prop, tier, seed, out):
                 out.violation("data race under concurrent Broker use: " + " | ".join(re.findall(r"^\s+(\S*eventlogger\S*\(\))", blk, re.M)[:4]), {"report": blk[:4000]})
             # TLC: every history must be linearisable (quick: the histories with up to 4 goroutines; the larger ones are
             # judged by the race detector and the recorder's exactly-once checks only)
-            if quick:
-                small = scr.path("conc-small.ndjson")
-                with open(small, "w") as f:
-                    for l in open(hist):
-                        if l.strip() and json.loads(l)["g"] <= 4:
-                            f.write(l)
-                hist = small
+            small = scr.path("conc-small.ndjson")
+            with open(small, "w") as f:
+                for l in open(hist):
+                    if l.strip() and json.loads(l)["g"] <= (4 if quick else 6):
+                        f.write(l)
+            hist = small
             acc, ids, res = validate(scr, hist, "real")
             if res.error:
                 raise Broken("BrokerConc validation failed: " + str(res.error))
